@@ -51,7 +51,8 @@ Definition gprefix (g : gkind) : str :=
 
 Fixpoint show_item (x : item) : str :=
   match x with
-  | Lit c => if is_alpha c || is_digit c then [c] else if c =? 10 then [92; 110] else [92; c]
+  | Lit c => if is_alpha c || is_digit c || (c =? 45) then [c]          (* a hyphen outside a class is written as it is *)
+             else if c =? 10 then [92; 110] else [92; c]
   | Any => [46]
   | Class neg rs => 91 :: (if neg then [94] else []) ++ flat_map show_range rs ++ [93]
   | Bol => [94]
